@@ -27,6 +27,7 @@ def gen_module(rng, root, k, conflict=False):
     or later libraries (forward declared when the header cannot be included)."""
     shutil.rmtree(root, ignore_errors=True)
     files = {}
+    closure = {}      # headers reached through #include, transitively
     for i in range(k):
         d = os.path.join(root, NAMES[i])
         os.makedirs(d)
@@ -47,7 +48,20 @@ def gen_module(rng, root, k, conflict=False):
             body.append('  void take_%d_%d(B%d *p, const B%d &r);' % (i, j, j, j))
             body.append('  B%d *give_%d_%d() const;' % (j, i, j))
         body.append('  enum E%d { E%d_A, E%d_B = %d };' % (i, i, i, i + 5))
+        if rng.random() < 0.6:
+            # a sequence: make_seq records are numbered after everything else
+            body.append('  int get_num_things_%d() const;' % i)
+            body.append('  int get_thing_%d(int n) const;' % i)
+            body.append('  __make_seq(get_things_%d, get_num_things_%d, get_thing_%d);' % (i, i, i))
         body.append('};')
+        seen_defs = set(base)
+        for j in base:
+            seen_defs |= closure.get(j, set())
+        closure[i] = seen_defs
+        forced = [j for j in uses if j not in seen_defs and rng.random() < 0.35]
+        if forced and not conflict:
+            # a class that this library only forward-declares, but forces into its database: global, not fully defined
+            open(os.path.join(d, 'h%d.N' % i), 'w').write(''.join('forcetype B%d\n' % j for j in forced))
         if conflict:
             # every library defines its own, different, global type of the same name
             body += ['class Shared {', 'PUBLISHED:', '  int from_%d();' % i, '};']
